@@ -147,6 +147,37 @@ def run(ctx):
                 s_["handler_fills_over_budget"] = s_.get("handler_fills_over_budget", 0) + 1
             else:
                 ubad.append((u.name, l, g, f"C18:crash-handler:{u.name}:{name}", f"FillRandom under the {mode} handler crashes"))
+        # ---- (b2) concurrent use: k goroutines, each with its own generator of the same seed, must all reproduce the sequential
+        #      value (package-level scratch state shared between generators shows up here); one unit also under the race detector
+        def has_string(tid):
+            return any(u.ins[t2]["kind"] == "prim" and u.ins[t2]["name"] == "string" for t2 in reach(u.ins, tid))
+        cands = [(tid, name) for tid, name, x in tops if rank[tid] > 0 and u.name != "f7" and has_string(tid)]
+        rng.shuffle(cands)
+        cl = [f"oconc {name} {rng.getrandbits(32)} 12 {30 if quick else 200}" for tid, name in cands[:4 if quick else 20]]
+        co = run_lines_resilient(u.gen.exe, [], cl, timeout=600, max_restarts=10)
+        for l, g in zip(cl, co):
+            name = l.split(" ")[1]
+            if g.startswith("ok ") and g.endswith("conc=same"):
+                s_["concurrent_fills_same"] = s_.get("concurrent_fills_same", 0) + 12 * int(l.split(" ")[4])
+            elif g.startswith("ok ") and "conc=panic" in g:
+                s_["handler_fills_over_budget"] = s_.get("handler_fills_over_budget", 0) + 1
+            else:
+                ubad.append((u.name, l, trunc(g[-60:], 60) if g.startswith("ok ") else g, f"C18:repro-concurrent:{u.name}:{name}",
+                             "concurrent generators of one seed do not all reproduce the sequential value"))
+        if u.name == "objx" and cl:
+            race_exe = u.gen.dir / "gendrv_race"
+            rc_b, so, se = sh(["go", "build", "-race", "-o", str(race_exe), "./drv"], cwd=u.gen.dir, env=goenv(), timeout=900)
+            if rc_b == 0:
+                env = goenv()
+                env["GORACE"] = "halt_on_error=0"
+                rc_r, out_r, err_r = run_lines(race_exe, [], cl, timeout=600, env=env)
+                s_["race_detector_ops"] = len(cl)
+                if "DATA RACE" in err_r:
+                    i0 = err_r.find("DATA RACE")
+                    ubad.append((u.name, cl[0], trunc(err_r[i0:i0 + 700].replace("\n", " | "), 700), f"C18:race:{u.name}",
+                                 "the race detector reports a data race between independent RandGenerators"))
+            else:
+                s_["race_build_failed"] = 1
         # ---- (c) FillRandomResultTL1: the result type filled under nat arguments taken from the request, which are NOT limited to 1023
         funs = [(x["id"], x["tlName"], x) for x in u.ins
                 if x["kind"] == "struct" and x.get("isFunction") and x.get("topLevel") and not x.get("natParams") and x["tlName"] in u.items
@@ -228,7 +259,7 @@ def run(ctx):
              "FillRandom driven by the scripted splitmix64 source; TL1 bytes compared with enc1(fill_random) of the extracted model on the same stream; "
              "oracle on the implementation alone: TL1/JSON/TL2 writers accept the value and what they wrote reads back to the same TL1 bytes, same seed twice gives the same bytes; "
              "a crash counts as the known divergence only when the model runs out of fuel on the same stream; "
-             "additionally (oracle only) fills under user RandgeneratorContext handlers (sizes above 1023, all/no mask bits) and (with the model) FillRandomResultTL1 of functions whose request carries sizes above 1023",
+             "additionally (oracle only) 12 goroutines with independent generators of one seed must all reproduce the sequential value (one unit also under go build -race), fills under user RandgeneratorContext handlers (sizes above 1023, all/no mask bits) and (with the model) FillRandomResultTL1 of functions whose request carries sizes above 1023",
         trusted=["translator overlay/internal/puregen/gengo/verif_objdump_test.go (real generator front half -> schema IR + Field.recursive + NatFieldUsage) and lib/schema_ir.py / lib/obj_lib.py (IR and facts file writers)",
                  "translator tools/genconsts (depth bounds, limit, probability weights, letters)",
                  "extraction ExtrOcamlBasic only; ocaml/conv.ml, ocaml/tl1/schema_io.ml, ocaml/obj/xschema_io.ml, ocaml/drv_obj.ml",
